@@ -600,6 +600,143 @@ _PAIRS_TRUSTED = [
     "theorems about the modelled algorithms are to be added by the coordinator (placeholder obligation C02.slot_lt)",
 ]
 
+PROPS["C01"] = {
+    "modules": C01_EVAL_MODULES + EVALBLOCK_MODULES + ["TaffyVerif.Props.C15", "TaffyVerif.Props.C15Pass"], "theorems": C01_EVAL_THEOREMS + EVALBLOCK_C01 + ["C15.step_preserves_K", "C15.I_reachable", "C15Pass.pass_cleans"],  # PLACEHOLDER — C01's theorems (stamp_valid, transparency under HitAfterQuiet, …) to be added
+    "harness": "C01", "driver": "C01", "monitor": False, "extra_ties": [("EVAL", "EVAL")], "harness_timeout": 900,
+    "rule": "random histories (5-25 ops) on ONE long-lived TaffyTree<Ctx> next to a mirror description: set_style (fresh / identical / "
+            "display:none toggle), set_node_context, add_child / insert_child_at_index / replace_child_at_index with a newly generated or a "
+            "detached subtree, remove_child_at_index, remove_children_range (in range), set_children (permutation / reparenting; no cycles), "
+            "remove, mark_dirty, enable/disable_rounding, compute_layout_with_measure on the main root or any parentless node (repeated, "
+            "alternating and fresh available spaces); plus an `invalidate` stream (tree, pass, mark_dirty(n), same pass). After EVERY pass a "
+            "fresh TaffyTree is built from the mirror (same rounding flag) and every node's unrounded_layout and layout() are compared "
+            "bit-exactly (-0.0 -> +0.0). Every history runs in four cache modes (real; real + quiet hits; exact keys; exact keys + quiet hits: "
+            "hook H1), each a separately labelled stream; a difference is attributed by the neutraliser that removes it. Request = tree line, "
+            "available space and the four layout lists of one pass; the Lean handler re-evaluates list equality. Non-trivial = at least one "
+            "structural edit and two passes; distinct = distinct transcripts. Full observation lines are written for the first 700 + 200 "
+            "histories and for every differing pass (up to 20 000 of them); the remaining passes are counted (`quiet` line).",
+    "trusted_base": [
+        "the whole-tree clause (incremental = fresh for every node after every pass) is SAMPLED on the implementation by the harness; "
+        "no Lean theorem about it is audited yet (placeholder obligation C02.slot_lt); the Lean driver only re-evaluates the equality "
+        "predicate on the observed layout lists",
+        "the mirror (harness/src/hist.rs Mirror) is the specification of what the live tree should be; the fresh tree is built from it",
+        "attribution uses hook H1 (src/verif_hooks.rs + cfg-guarded lines in src/tree/cache.rs): exact-key mode (match on the complete "
+        "LayoutInput, one PerformLayout entry per node) and quiet-hit mode (every store drops the node's PerformLayout entry)",
+    ],
+    "assumptions": ["measure data is a pure function (Ctx::Fixed / Ctx::Wrap)",
+                    "histories respect the precondition: ids live, attach only detached nodes (or via set_children), no cycles, in-range ranges"],
+    "undischarged": ["all of C01's theorems (to be added by the coordinator); real-mode equality on the three container algorithms is sampled"],
+    "level_text": "Theorems over the tree-level evaluator (Model/Eval.lean, every dispatch, every algorithm bundle): the OUTPUT of a node is a pure function of its subtree and input (outFresh); an exact (full-input) memo whose entries agree with outFresh returns outFresh and stays valid (outputs_transparent_exact); edits that replace a subtree and clear the memos on the path to the root — what the mutators plus mark_dirty achieve, by C15's invariant — preserve validity, so after ANY history of edits and passes the output for the root equals the output of a cache-free pass over a freshly built tree (history_independent_outputs_exact). For the stored LAYOUTS the statement is false in general: layouts_not_transparent_witness is a machine-checked counterexample in which every program has the shape '(ComputeSize)* then PerformLayout per child' (a ComputeSize evaluation rewrites descendants between a PerformLayout store and a later hit), and the same scenario was then reproduced on the real code (known finding c01-stale-layout-after-compute-size). Under the trace condition QuietRun (no body evaluation of a node between a PerformLayout store and a hit on it) and PLCovers, layouts after any quiet history equal those of a fresh cache-free pass; PLCovers is proved for the block model, so on trees of block containers and leaves the theorem needs QuietRun only. On the real code: random histories of every mutator interleaved with passes on any root are compared with a freshly built tree, in four cache modes (real, real+quiet hits, exact keys, exact+quiet), every discrepancy is attributed by the mode that removes it, and a cache-conformance oracle checks every hit of the real trace against cache.rs' rule.",
+    "level_note": 'partial: equality of stored layouts under the real nine-slot cache is NOT a theorem (it is false: known findings lossy key, stale layouts after a ComputeSize evaluation, attach under a clean hidden node); with exact keys it is proved under QuietRun/PLCovers, which hold for block and are hypotheses for flex/grid. Axioms: propext, Classical.choice, Quot.sound.',
+    "technique": 'Lean 4 refinement proof (exact memo vs cache-free evaluator, edits, histories) + counterexample + differential histories against fresh trees in four cache modes',
+    "undischarged": ['PLCovers for flex and grid programs; QuietRun is a trace condition (monitored on the implementation through the quiet-hit cache mode)', 'real-cache layout transparency: false (three known findings)'],
+}
+
+PROPS["C16"] = {
+    "modules": C16_EVAL_MODULES + EVALBLOCK_MODULES, "theorems": C16_EVAL_THEOREMS + EVALBLOCK_C16,  # PLACEHOLDER — C16's theorems (body_evals_le_distinct_keys, queries_per_invocation, chain_const) to be added
+    "harness": "C16", "driver": "C16", "monitor": False, "harness_timeout": 900,
+    "rule": "fresh trees, one compute_layout pass each: (i) 3000 random mixes (all displays, hidden/absolute nodes, Fixed and Wrap leaves) with "
+            "up to 40/150/300 nodes, depth up to 12, up to 10 children; (ii) single-child chain families (same level styles cycled, depth "
+            "1..64): every container kind and five mixed cycles x nine sizing variants x four available spaces x Fixed/Wrap leaf, plus 300 "
+            "random families (1-4 random container styles, random leaf style). Counted: measure-function invocations per node (Cell counter "
+            "in the closure) and algorithm-body evaluations per node (QueryKind::Miss of trace hook H3). Oracles: total measure calls <= "
+            "64 x nodes; per chain family the leaf's call count at the last depth reached must not exceed the count at depth 8 and no depth "
+            "may exceed 64 x (depth+1). A pass is aborted at 1024 x N layout queries (hook: set_query_budget) or 512 x N measure calls. "
+            "Non-trivial = at least 3 nodes; distinct = distinct transcripts.",
+    "trusted_base": [
+        "the cost bounds are MEASURED on the implementation; no Lean theorem about them is audited yet (placeholder obligation); the Lean "
+        "driver re-evaluates the bound predicates on the reported counts",
+        "counts come from the harness' measure closure and from hook H3 (src/verif_hooks.rs trace, query budget)",
+    ],
+    "assumptions": ["the measure function is pure; cost is counted in calls, not in time"],
+    "undischarged": ["all of C16's theorems; the global 64 x N bound is not a planned theorem (DESIGN.md §8 C16)"],
+    "level_text": "Theorems over the tree-level evaluator with a logging cache: logging changes nothing; exactly one store per body evaluation; with the exact memo the keys stored since the last clear are pairwise distinct, so a node's body is evaluated at most once per distinct query between invalidations; if every container program makes at most q child calls per run, a node at depth k is evaluated at most q^k times from a fresh state under ANY cache (tight without a cache); if all call inputs of all programs come from a fixed list Ks, every non-root node is evaluated at most |Ks| times whatever the depth (chain_const). For the block model: at most 2·n calls for n children; its call inputs do depend on its own input (so chain_const's hypothesis fails for block — consistent with the measured growth). The property's global bound 64 × nodes and its chain clause are NOT theorems: on the real code the random mixes stay far below the bound (max 27.9 calls per node) but single-child chains violate both clauses (known findings: linear growth 4d+1 for a flex-row chain with a wrapping leaf; exponential growth for block/flex-column/grid cycles).",
+    "level_note": 'partial: the quantitative clauses are sampled (measure-call and body-evaluation counters through the trace hook; a query budget stops exponential passes) and two of them are genuinely violated by the unchanged code (known findings). Axioms: propext, Classical.choice, Quot.sound.',
+    "technique": 'Lean 4 cost-semantics theorems on the evaluator + measured call counts on chains (depth ≤ 64) and random mixes (≤ 300 nodes)',
+    "undischarged": ['64 × nodes: not a theorem; chain clause: false of the code (known findings c16-chain-growth, c16-measure-blowup)'],
+}
+
+PROPS["C17"] = {
+    "modules": C17_MODULES, "theorems": C17_THEOREMS,  # PLACEHOLDER — C17's theorems (dispatch_eq, drivers_eq) to be added
+    "harness": "C17", "driver": "C17", "monitor": False, "extra_ties": [("EVAL", "EVAL")], "harness_timeout": 900,
+    "rule": "12 000 generated trees (full observation lines for the first 4000 and for every differing case) (60% up to 12 nodes / depth 3, 40% up to 40 nodes / depth 6; flex/grid/block/none, Fixed/Wrap/no measure "
+            "data), random available space, rounding on or off. Each is laid out by TaffyTree::compute_layout_with_measure and by an "
+            "independent Vec-backed tree (harness/src/hist.rs VTree) that implements TraversePartialTree, TraverseTree, LayoutPartialTree, "
+            "CacheTree, RoundTree, LayoutFlexboxContainer, LayoutGridContainer, LayoutBlockContainer as examples/custom_tree_vec.rs and the "
+            "trait documentation prescribe and drives compute_root_layout / compute_cached_layout / compute_{block,flexbox,grid}_layout / "
+            "compute_leaf_layout / compute_hidden_layout / round_layout; both again in exact-key mode; small trees (<= 12 nodes, depth <= 3) "
+            "also cache-free (cache_get never hits; budget 3M queries). Compared bit for bit: TaffyTree vs driver (real and exact keys), "
+            "exact-key memo vs cache-free (with the quiet-hit neutraliser on a difference), real cache vs exact-key memo. Request = tree line, "
+            "available space, every layout list; the Lean handler re-evaluates all comparisons. Non-trivial = at least 3 nodes.",
+    "trusted_base": [
+        "driver equality is SAMPLED on the implementation; no Lean theorem about it is audited yet (placeholder obligation)",
+        "VTree is my reading of the trait documentation (hidden mode first, cached layout, display:none, dispatch on display and child "
+        "count, leaf with the node's measure data, root layout, rounding)",
+        "exact-key / quiet-hit modes are hook H1; the cache-free evaluation is VTree with a cache that never hits",
+    ],
+    "assumptions": ["same pure measure function on both sides; calc() resolves to 0 on both sides"],
+    "undischarged": ["all of C17's theorems (to be added by the coordinator)"],
+    "level_text": "Theorems: the dispatch arms extracted from TaffyView::compute_child_layout select, for every display mode and child count, the function the documentation names (dispatch_eq), hidden run mode is handled first, the measure function is reachable only for childless box-generating nodes, and the evaluator with TaffyTree's dispatch IS the evaluator with the documented dispatch (drivers_eq) for every cache implementation and algorithm bundle; with an exact memo the outputs equal the cache-free outputs (memo_eq_cachefree_output). On the real code an independent Vec-backed tree implementing the public traits as the documentation prescribes is laid out next to TaffyTree (rounding on and off, real and exact keys): 0 differences; exact memo vs cache-free: equal except the stale-layout finding; real cache vs exact memo differs on 12 % of random trees (known finding: lossy key).",
+    "level_note": 'partial: equality of stored layouts between the real cache and the exact memo is false (known finding c17-lossy-cache-key). Axioms: propext, Classical.choice, Quot.sound.',
+    "technique": 'extracted dispatch table + Lean equality of drivers + differential run against an independent implementation of the public traits',
+    "undischarged": ['layout equality real cache vs exact memo: false (known findings)'],
+}
+
+PROPS["C04"] = {
+    "modules": ['TaffyVerif.Props.C04'], "theorems": ['C04.num_homogeneous', 'C04.resolve_homogeneous', 'C04.aspect_ratio_homogeneous', 'C04.clamp_homogeneous', 'C04.margin_set_homogeneous', 'C04.measure_homogeneous', 'C04.leaf_homogeneous', 'C04.leaf_homogeneous_ctx', 'C04.root_homogeneous', 'C04.abs_homogeneous', 'C04.abs_call_sites_homogeneous', 'C04.flex_line_homogeneous', 'C04.block_homogeneous', 'C04.flow_loop_homogeneous', 'C04.place_item_homogeneous', 'C04.tree_homogeneous', 'C04.tree_homogeneous_fresh', 'C04.tree_homogeneous_evalNode', 'C04.leafAlg_homogeneous', 'C04.algs_homogeneous_concrete', 'C04.tree_homogeneous_concrete', 'C04.cache_roughly_equal_homogeneous', 'C04.cache_roughly_equal_not_homogeneous'],
+    "harness": "C04", "driver": "C04", "monitor": False, "extra_ties": [("EVAL", "EVAL")],
+    "rule": "style trees of 1-12 nodes, depth <= 4, flex/grid/block mixed (treegen::gen_tree with every feature on: hidden, "
+            "absolute, percentages, aspect ratios, content-box, auto/negative margins, scroll containers, wrap/fixed measure "
+            "contexts, grid lines) plus extra grid tracks (fit-content(px/%), minmax(px, px|auto|max-content), auto-fill/auto-fit) "
+            "and small flex bases; available space definite/min-/max-content per axis; tree B = every absolute length (size, "
+            "min/max size, margin, padding, border, inset, gap, flex-basis, scrollbar width, fixed/fit-content/minmax track sizes, "
+            "measure-context sizes, definite available space) x 2^e, e in {-3..8}\\{0}. Predicate: every f32 field of every "
+            "node's unrounded layout in B equals 2^e x the field in A bit-exactly (-0.0 = +0.0), order equal. A mismatch is attributed "
+            "with the help of two cfg(taffy_verif) counters (hooks.patch: flexbox.rs floor taken with a non-zero basis; grid "
+            "track_sizing.rs positive length <= THRESHOLD): (1) a grid threshold was met in A or B and B = 2^e x A up to "
+            "0.05(1+2^e) + 2^-16|B| = known finding c04-grid-track-threshold; (2) the flex floor was taken in A or B and the pair "
+            "2^12 x A / 2^(12+e) x A (then, if needed, with flex_shrink 0 -> 1) is homogeneous = known finding "
+            "c04-flex-shrink-floor-at-one; anything else is a violation (described with a greedily minimised tree). Fixed first: "
+            "the design's witness (flex-basis 0.875, flex-shrink 0.5, content 0.5, x16), the grid-threshold witness (2^-7 px wide grid, "
+            "minmax(0,100px) column, x16) and a plain homogeneous grid. Non-trivial = tree A has a non-zero layout; distinct = "
+            "distinct transcripts.",
+    "trusted_base": _PAIRS_TRUSTED + [
+        "power-of-two factors with lengths <= 2^10 and >= 2^-5 keep every intermediate finite and normal, so exact "
+        "homogeneity is the expected outcome of IEEE arithmetic; no theorem relates Float32 to Rat here"],
+    "assumptions": ["scale factors are powers of two; the measure function is itself homogeneous (Fixed / Wrap contexts)",
+                    "known finding c04-flex-shrink-floor-at-one: the flex intrinsic main-size path is not homogeneous "
+                    "(flex_shrink x inner_flex_basis floored at 1)",
+                    "known finding c04-grid-track-threshold (found by this check): grid track sizing compares lengths with the "
+                    "absolute constants 0.01 and 1e-6, so homogeneity holds only up to those thresholds (typically last-ulp "
+                    "differences from redistributed f32 rounding dust; macroscopic only for sub-0.01px free space)",
+                    "a tree on which both layouts panic is skipped (counted as panic:both; one such input class is a C03 matter: "
+                    "repeat(auto-fit, ...) columns in a grid whose only children are display:none)"],
+    "level_text": "Theorems at exact rationals, for every k > 0: every modelled function commutes with scaling all lengths by k — length/percentage resolution, the five MaybeMath clamp families, aspect-ratio transfer, margin sets, the measure functions, compute_leaf_layout (output and measure-call arguments), compute_root_layout's parts, the three absolute-positioning copies and their call sites, the flex line functions (freeze loop, justification, positions — no side condition needed), and the WHOLE block algorithm as an interaction program; and tree_homogeneous: the cache-free tree-level evaluator maps the scaled tree/state/input to the scaled output and scaled layouts whenever the container algorithms are homogeneous, which is proved for leaf and block, so trees of block containers and leaves are homogeneous outright. The cache's ε comparison is proved NOT homogeneous (witness) — hence the statement on cache-free evaluation. On the real code the clause is sampled on tree pairs with power-of-two factors, bit-exact.",
+    "level_note": 'partial: homogeneity of flexbox.rs as a whole and of grid are hypotheses of the tree theorem (sampled by tree pairs). Known findings: flex floor-at-1 of the scaled shrink factor; grid track-sizing THRESHOLD constants. No theorem relates f32 to rational arithmetic; with power-of-two factors every f32 operation commutes with the scaling exactly. Axioms: propext, Classical.choice, Quot.sound.',
+    "technique": 'Lean 4 equivariance proofs (function level + induction over the evaluator) + metamorphic scaled tree pairs on the real TaffyTree',
+    "undischarged": ['AlgsHomogeneous for flex and grid container programs (unmodelled as programs): sampled by the tree pairs only'],
+}
+
+PROPS["C12"] = {
+    "modules": ['TaffyVerif.Props.C12'], "theorems": ['C12.core_arith', 'C12.adjustment_context_free', 'C12.core_site_shape', 'C12.core_flex_basis', 'C12.isAuto_invariant', 'C12.leaf_site_equiv', 'C12.root_site_equiv', 'C12.single_leaf_equiv', 'C12.abs_site_equiv_block', 'C12.abs_site_equiv_flex', 'C12.abs_site_equiv_grid', 'C12.abs_call_sites_equiv', 'C12.block_container_site_equiv', 'C12.block_item_site_equiv', 'C12.tree_equiv', 'C12.tree_equiv_init', 'C12.tree_equiv_root', 'C12.leafAlg_blind', 'C12.block_blind', 'C12.boxBlind_modelled', 'C12.tree_equiv_modelled', 'C12.tree_equiv_block_only', 'C12.grid_compressible_cap_site_not_equiv', 'C12.grid_compressible_cap_repaired_equiv'],
+    "harness": "C12", "driver": "C12", "monitor": False, "extra_ties": [("EVAL", "EVAL")],
+    "rule": "style trees of 1-12 nodes as for C04 in which half of the nodes are made content-box with length-valued padding/border "
+            "(multiples of 1/4, mostly non-zero), no aspect ratio, percentages in size/min/max/flex-basis replaced by lengths or auto, "
+            "extra definite lengths (other content-box nodes from the base generator stay ineligible: percentage padding, aspect "
+            "ratio, percentage sizes); a random subset (a third of the cases: all) of the eligible nodes is switched: border-box with "
+            "every non-auto size/min/max length + padding + border of its axis, flex-basis + the sum along the parent flex "
+            "container's main axis (row: horizontal, column: vertical; horizontal when the parent is not a flex container, where "
+            "flex-basis is never read). Predicate: all 20 numbers and order of every node's unrounded layout identical in A and B. "
+            "All values dyadic (k/4) so that L + padding + border is exact in f32. Fixed first: content-box items with every rewritten "
+            "property set in row-flex, column-flex, block and grid containers, all switched. Non-trivial = at least one switched node "
+            "has non-zero padding+border and a definite length, and the layout is non-zero.",
+    "trusted_base": _PAIRS_TRUSTED,
+    "assumptions": ["padding/border of switched nodes are lengths (percentages disqualify), values dyadic so sums are exact"],
+    "level_text": "Theorems at exact rationals: for an eligible content-box style (length padding/border, no aspect ratio, size/min/max/flex-basis auto or lengths) and its border-box rewrite, every modelled size-reading site computes the same thing — compute_leaf_layout (incl. measure calls), compute_root_layout's parts, the three absolute-positioning copies (child and container side), the block algorithm for its own style and for any subset of switched child styles (equal programs); tree_equiv: with BoxBlind algorithms the two trees evaluate to equal outputs and equal states for every cache implementation, proved outright for trees of block containers and leaves. One unmodelled grid site (compressible replaced items' size cap in grid_item.rs) was found NOT equivalent — witness proved in Lean, replayed on the real code, repaired by a fix commit. On the real code the clause is sampled on tree pairs (random subsets of switched nodes), bit-exact.",
+    "level_note": 'partial: flex and grid item generation are not modelled as programs (ContainerBlind flex/grid are hypotheses; a regex site table notes/c12_sites.py lists every read of size/min_size/max_size/flex_basis and whether it is followed by the box-sizing adjustment). Axioms: propext, Classical.choice, Quot.sound.',
+    "technique": 'Lean 4 site-equivalence proofs + induction over the evaluator + metamorphic box-sizing tree pairs on the real TaffyTree',
+    "undischarged": ['ContainerBlind for flex and grid (unmodelled as programs): sampled by the tree pairs and covered by the site table only'],
+}
+
 PROPS["C05"] = {
     "modules": C05_EVAL_MODULES + C17_MODULES + EVALBLOCK_MODULES, "theorems": C05_EVAL_THEOREMS + ["C17.dispatch_eq"] + EVALBLOCK_C05,
     "harness": "C05", "driver": "C05", "monitor": False, "extra_ties": [("EVAL", "EVAL")],
@@ -721,9 +858,9 @@ HOOK_COMMITS = [
     "77857cc",
     "47836dd",
     "a52c44b",
+    "7584438",
 ]
 
 _pending = "check not built yet in this revision of /verif (planned, see DESIGN.md §8)"
-NOT_APPLICABLE = {p: _pending for p in
-                  ["C01", "C04", "C12", "C16", "C17"]}
+NOT_APPLICABLE = {}
 
